@@ -659,6 +659,14 @@ func (c *EvalCtx) evalCall(e *Expr) CV {
 		}
 		i := c.evalInt(e.Args[1])
 		return CV{VT{B.Select(vc.heapGet(c.st, fmt.Sprintf("ghost:arg%s:%s", i.ival.String(), key)), B.Int(0))}, nil}
+	case "bufLen", "bufAt":
+		// abstract bytes.Buffer model: bufLen(b), bufAt(b, i)
+		b0 := c.evalInt(e.Args[0])
+		if e.Name == "bufLen" {
+			return CV{VT{B.Select(vc.heapGet(c.st, "ghost:bbuf.len"), b0)}, nil}
+		}
+		i := c.evalInt(e.Args[1])
+		return CV{VT{B.Select(vc.heapGet(c.st, "ghost:bbuf.data"), B.Add(B.Mul(B.Big(pow2(48)), b0), i))}, nil}
 	case "pow10":
 		n := c.evalInt(e.Args[0])
 		if n.IsConst() {
